@@ -7,6 +7,7 @@ InToto/Spec/Rules.lean (pointwise `consumes` / `fails`, queue algorithm `run`).
 All theorems hold for every glob matcher `E.glob`, in particular for the modelled one.
 -/
 import InToto.Proofs.Rules
+import InToto.Proofs.RulesMore
 
 namespace InToto.C03
 open InToto InToto.Rules InToto.RulesSpec InToto.RulesProofs
@@ -18,6 +19,102 @@ theorem interpreter_eq_spec (E : Env) (h : CleanCtx E.ctx) (rules : List (List S
     toOption (applyRules E.glob E.srcName E.srcType E.created E.deleted E.modified rules q E.ctx) =
       ((parseAll rules).bind fun rs => run E rs q).map fun q' => (q', E.ctx) :=
   applyRules_spec E h rules q
+
+/-- C03: a rule list is never executed with a panic outcome (the empty rule is an error). -/
+theorem rules_never_panic (glob : Str → Str → Bool) (sn : Str) (st : ArtType) (c d m : List Str)
+    (rules : List (List Str)) (q : List Str) (ctx : Ctx) :
+    (applyRules glob sn st c d m rules q ctx).isPanic = false :=
+  applyRules_no_panic glob sn st c d m rules q ctx
+
+/-- C03: a rule that fits none of the formats is an error wherever it stands in the list —
+    never silently skipped (the result is not `ok`, whatever the other rules and the artifacts). -/
+theorem malformed_rule_is_error (E : Env) (h : CleanCtx E.ctx) (pre post : List (List Str))
+    (bad : List Str) (e : String) (hb : unpackRule bad = .err e) (q : List Str) :
+    toOption (applyRules E.glob E.srcName E.srcType E.created E.deleted E.modified
+      (pre ++ bad :: post) q E.ctx) = none := by
+  rw [applyRules_spec E h, parseAll_malformed pre post bad e hb]
+  rfl
+
+/-- C03 (consumption is exact): after a successful run an artifact is still queued iff it was
+    queued initially and no rule of the list describes it. -/
+theorem queue_exact (E : Env) (rs : List Rule) (q q' : List Str) (h : run E rs q = some q') (a : Str) :
+    a ∈ q' ↔ a ∈ q ∧ ∀ r ∈ rs, consumes E r a = false :=
+  run_mem E rs q q' h a
+
+/-- C03 (rules are applied in order): running `rs₁ ++ rs₂` is running `rs₂` on the queue left by `rs₁`. -/
+theorem run_append (E : Env) (rs₁ rs₂ : List Rule) (q : List Str) :
+    run E (rs₁ ++ rs₂) q = (run E rs₁ q).bind (run E rs₂) :=
+  RulesProofs.run_append E rs₁ rs₂ q
+
+/-- C03 (DISALLOW fails exactly when a matching artifact is still unconsumed). -/
+theorem disallow_iff (E : Env) (p : Str) (q : List Str) :
+    run E [.simple .disallow p] q = none ↔ ∃ a ∈ q, E.glob (Path.clean p) a = true :=
+  RulesProofs.disallow_iff E p q
+
+/-- C03 (REQUIRE fails exactly when its artifact is no longer in the queue). -/
+theorem require_iff (E : Env) (f : Str) (q : List Str) :
+    run E [.simple .require f] q = none ↔ f ∉ q :=
+  RulesProofs.require_iff E f q
+
+/-- C03 (terminal DISALLOW *): with a matcher for which `*` matches every name, a rule list
+    followed by `DISALLOW *` is accepted iff the list is accepted and consumes every artifact. -/
+theorem terminal_disallow (E : Env) (hstar : ∀ a, E.glob (Path.clean (lit% "*")) a = true)
+    (rs : List Rule) (q : List Str) :
+    (run E (rs ++ [.simple .disallow (lit% "*")]) q).isSome = true ↔ run E rs q = some [] :=
+  RulesProofs.terminal_disallow E hstar rs q
+
+/-- The modelled matcher satisfies the hypothesis of `terminal_disallow`. -/
+theorem goGlob_star (a : Str) : goGlob (Path.clean (lit% "*")) a = true :=
+  RulesProofs.goGlob_star a
+
+/-- C03 (verdict does not depend on the order in which a Go map hands out the artifacts). -/
+theorem verdict_perm_invariant (E : Env) (rs : List Rule) (q₁ q₂ : List Str) (h : q₁.Perm q₂) :
+    (run E rs q₁).isSome = (run E rs q₂).isSome :=
+  RulesProofs.run_perm E rs q₁ q₂ h
+
+/-- C03 (MATCH only consumes artifacts located under its source prefix). -/
+theorem match_needs_prefix (E : Env) (p sp dp : Str) (dt : ArtType) (dn a : Str)
+    (h : consumes E (.mtch p sp dp dt dn) a = true) :
+    normPrefix sp = [] ∨ (normPrefix sp).isPrefixOf a = true :=
+  RulesProofs.match_needs_prefix E p sp dp dt dn a h
+
+/-- C03 (MATCH requires equal hashes of the correspondingly named destination artifact). -/
+theorem match_needs_equal_hash (E : Env) (p sp dp : Str) (dt : ArtType) (dn a : Str)
+    (h : consumes E (.mtch p sp dp dt dn) a = true) :
+    ∃ dst, lookup dn E.ctx = some (some dst) ∧
+      artsHas (sel dt dst) (Path.clean (join2 (normPrefix dp) (trimPrefix a (normPrefix sp)))) = true ∧
+      artsGet E.srcArts a =
+        artsGet (sel dt dst) (Path.clean (join2 (normPrefix dp) (trimPrefix a (normPrefix sp)))) :=
+  RulesProofs.match_needs_equal_hash E p sp dp dt dn a h
+
+/-! ### Rule grammar: keywords are case-insensitive, every format is accepted, nothing else -/
+
+theorem unpack_simple (k p : Str) (t : RType) (h : simpleType (goLower k) = some t) :
+    unpackRule [k, p] = .ok (.simple t p) :=
+  RulesProofs.unpack_simple k p t h
+
+theorem unpack_match6 (m p w ty f s : Str) (t : ArtType)
+    (hm : goLower m = lit% "match") (hw : goLower w = lit% "with") (hf : goLower f = lit% "from")
+    (ht : artType (goLower ty) = some t) :
+    unpackRule [m, p, w, ty, f, s] = .ok (.mtch p [] [] t s) :=
+  RulesProofs.unpack_match6 m p w ty f s t hm hw hf ht
+
+theorem unpack_match8_src (m p i sp w ty f s : Str) (t : ArtType)
+    (hm : goLower m = lit% "match") (hi : goLower i = lit% "in") (hw : goLower w = lit% "with")
+    (hf : goLower f = lit% "from") (ht : artType (goLower ty) = some t) :
+    unpackRule [m, p, i, sp, w, ty, f, s] = .ok (.mtch p sp [] t s) :=
+  RulesProofs.unpack_match8_src m p i sp w ty f s t hm hi hw hf ht
+
+theorem unpack_match10 (m p i sp w ty i2 dp f s : Str) (t : ArtType)
+    (hm : goLower m = lit% "match") (hi : goLower i = lit% "in") (hw : goLower w = lit% "with")
+    (hi2 : goLower i2 = lit% "in") (hf : goLower f = lit% "from") (ht : artType (goLower ty) = some t) :
+    unpackRule [m, p, i, sp, w, ty, i2, dp, f, s] = .ok (.mtch p sp dp t s) :=
+  RulesProofs.unpack_match10 m p i sp w ty i2 dp f s t hm hi hw hi2 hf ht
+
+/-- Only token lists of length 2, 6, 8 or 10 can be rules; in particular the empty rule is an error. -/
+theorem unpack_ok_length (rule : List Str) (r : Rule) (h : unpackRule rule = .ok r) :
+    rule.length = 2 ∨ rule.length = 6 ∨ rule.length = 8 ∨ rule.length = 10 :=
+  RulesProofs.unpack_ok_length rule r h
 
 /-- Keyword case does not matter: `MATCH`, `match`, `MaTcH` ... give the same rule. -/
 example : unpackRule [lit% "MaTcH", lit% "Foo*", lit% "with", lit% "PRODUCTS", lit% "From", lit% "Build"]
